@@ -38,7 +38,7 @@ def run(ctx, replay_case=None):
             rig.write_ndjson(cases, [case])
     rc = rig.functional(
         ctx, fams=FAMS, mc_module="MC_Escapers", mc_consts=consts,
-        mc_invs=["RoundTrip", "CssAsFoundExtent", "NoDecoderFailure", "UrlPreIdentity"],
+        mc_invs=["RoundTrip", "CssAsFoundExtent", "UrlPreIdentity"],
         sub="c07", trace_module="Trace_Escapers",
         extra=ctx.pick(1500, 20000),
         case_from_obs=lambda o: {"id": o["id"], "s": o["s"], "cx": [o["ctx"]]},
